@@ -259,3 +259,42 @@ def expect_unchanged(ra, rows, dtype, what, **info):
     got_rows, got_dt, got_lens = r.value
     if got_lens != [len(x) for x in exp] or not rows_equal(got_rows, exp) or (sum(got_lens) and got_dt != str(np.dtype(dtype))):
         raise Violation(what + ":operand-modified", expected=jsonable(exp), got=jsonable(got_rows), dtype=got_dt, **info)
+
+
+# ---------------------------------------------------------------- lazy operands
+
+LAZY_MODES = 5
+
+
+def lazy_ra(rows, dtype, mode):
+    """A RaggedArray with exactly these rows.  mode 0: freshly built.  Other modes: a *pending
+    selection* (never materialised) over a larger / permuted / column-padded parent, which is
+    what exposes a missing materialisation inside an operation."""
+    from npstructures import RaggedArray
+    rows = [np.asarray(r, dtype=dtype) for r in rows]
+    n = len(rows)
+    dt = np.dtype(dtype)
+    junk = np.array([1], dtype=dt) if dt.kind != "b" else np.array([True])
+
+    def build(rs):
+        flat = np.concatenate([np.zeros(0, dtype=dt)] + list(rs)).astype(dt)
+        return RaggedArray(flat, [len(r) for r in rs])
+    mode = mode % LAZY_MODES
+    if mode == 0:
+        return build(rows)
+    if mode == 1:      # reversed parent, reversed back by a negative-step row slice
+        return build(rows[::-1])[::-1]
+    if mode == 2:      # parent with extra rows in between, picked by an index list
+        parent, idx = [], []
+        for r in rows:
+            parent.append(np.concatenate([r, junk]))
+            idx.append(len(parent))
+            parent.append(r)
+        parent.append(junk)
+        return build(parent)[idx]
+    if mode == 3:      # column-padded parent, column slice
+        return build([np.concatenate([junk, r, junk, junk]) for r in rows])[:, 1:-2]
+    # mode 4: row mask over a parent with a junk row first and last
+    parent = [junk] + rows + [junk]
+    mask = np.array([False] + [True] * n + [False])
+    return build(parent)[mask]
